@@ -4,8 +4,10 @@ import importlib
 
 MODULES = {
     "C03": "c03",
+    "C08": "c08",
     "C13": "c13",
     "C14": "c14",
+    "C15": "c15",
     "C17": "c17",
     "C18": "c18",
     "C19": "c19",
